@@ -433,6 +433,14 @@ def run(repo, check):
     check.run_rule(rule_r3, repo)
     check.run_rule(rule_r4, repo)
     check.run_rule(rule_r5, repo)
+    from sa.rules import c01
+    r6 = c01.rule_r1(repo)
+    r6.rule = 'C14.R6'
+    r6.title = 'a descriptor that is in no table makes the walk fail with UnknownDescriptor (shared with C01.R1)'
+    r6.findings = [f for f in r6.findings if 'Undefined' in f.key]
+    for f in r6.findings:
+        f.rule = 'C14.R6'
+    check.add(r6)
     check.assumptions = ['the contents of the bundled Table B / D files are data and are not decided (a lint of the 40 table directories found replication '
                          'over-runs in 3 sequences; not claimed)',
                          'the tables are abstracted as lookup oracles; TableR.lookup is the repository\'s own code']
